@@ -371,6 +371,33 @@ def parser_grid_search(log):
     return {'witness': None, 'grid_points': len(cases)}
 
 
+def augassign_grid_search(log):
+    """`target[i] OP= rhs` where evaluating rhs changes target[i]: the old value is read BEFORE rhs is evaluated."""
+    build(log)
+    progs = []
+    for cont, key, newv in (('[10, 20]', '0', '100'), ('{"k": 10}', '"k"', '100'), ('[[1], [2]]', '1', '[9]')):
+        for op, rhs in (('+=', '1'), ('*=', '3'), ('-=', '4')):
+            if cont.startswith('[[') and op != '+=':
+                continue
+            r = rhs if not cont.startswith('[[') else '[7]'
+            progs.append('x = %s\ndef bump():\n    x[%s] = %s\n    return %s\ndef run():\n    x[%s] %s bump()\n    return x[%s]\nrun()' % (cont, key, newv, r, key, op, key))
+    n = 0
+    for src in progs:
+        env = {}
+        try:
+            exec(src.rsplit('\n', 1)[0], env)
+            want = 'OK ' + repr(env['run']())
+        except Exception:
+            want = 'ERR'
+        p = subprocess.run([BIN, 'evalseq', src], capture_output=True, text=True, timeout=120)
+        o = (p.stdout.strip().splitlines() or ['?'])[-1]
+        n += 1
+        good = o.startswith('ERR') if want == 'ERR' else o == want
+        if not good:
+            return {'witness': {'program': src, 'real_library': o, 'oracle_python': want}, 'grid_points': n}
+    return {'witness': None, 'grid_points': n}
+
+
 def loop_exit_grid_search(log):
     """a list / dict / set is iterated by a for loop that is left by exhaustion, break, or one of the return forms
     (constant, computed, in a def with a declared return type); afterwards the container must be mutable again."""
@@ -575,6 +602,10 @@ def find_witness(prop, v, repo, log):
     if prop == 'C08' and ('C08.bind' in oid or 'collect_inline_impl' in fn):
         r = call_grid_search(log)
         r['search'] = '10 signatures x 16 call shapes (positional, named, *seq, **map) on the real library vs CPython call rules'
+        return r
+    if 'C01.augassign' in oid or 'AssignModifyLhs' in fn or 'AssignOnWriteBc' in fn:
+        r = augassign_grid_search(log)
+        r['search'] = 'x[i] OP= f() where f changes x[i] (lists, dicts, nested lists; += *= -=) on the real library vs Python'
         return r
     if 'C01.compr.' in oid or 'compile_ifs' in fn:
         r = compr_grid_search(log)
